@@ -16,7 +16,7 @@ fn case_of(usage: &str, names: &[String]) -> Value {
     json!({"use": usage, "names": names})
 }
 
-const PTYPES: u64 = 10;
+const PTYPES: u64 = 11;
 
 fn prop_case(names: &[String], ptype: u64) -> Value {
     json!({"use": "prop", "names": names, "ptype": ptype})
@@ -55,13 +55,17 @@ pub fn doc_of(c: &Value) -> Option<(Value, Vec<String>)> {
                 7 => (json!({"type": "object", "properties": {"inner": {"type": "integer"}}}), false),
                 8 => (json!({"type": "array", "items": {"type": "string"}, "uniqueItems": true}), false),
                 9 => (json!({"type": "string", "default": "dflt"}), false),
+                // 10: named in `required` only, declared nowhere
+                10 => (Value::Null, true),
                 _ => return None,
             };
             let mut props = Map::new();
             let mut req = vec![];
             for (i, n) in names.iter().enumerate() {
                 if i == 0 {
-                    props.insert(n.clone(), schema.clone());
+                    if !schema.is_null() {
+                        props.insert(n.clone(), schema.clone());
+                    }
                     if required {
                         req.push(n.clone());
                     }
